@@ -43,4 +43,11 @@ VARIANTS = [
     V("C07-n03-update-records-first", "neutral", "        self.coarseningValue += update_info\n        self.levelvec_dict = {}\n", "        self.levelvec_dict = {}\n        self.coarseningValue += update_info\n"),
     V("C07-n04-logging-in-coarsen", "neutral", "                    area.add_level(tuple(temp), tuple(levelvector))\n",
       "                    area.add_level(tuple(temp), tuple(levelvector))\n                    self.log_util.log_debug('recorded')\n", file=ES),
+    # round-3 rules
+    V("C07-n60-given-coarsening-renamed", "neutral", None, None, edits=[
+        {"file": "spatiallyAdaptiveExtendSplit.py", "old": "        coarsening_save = coarsening\n        area_is_null = False\n", "new": "        given_coarsening = area.coarseningValue\n        area_is_null = False\n"},
+        {"file": "spatiallyAdaptiveExtendSplit.py", "old": "                    no_forward_problem = coarsening_save >= self.lmax[0] + self.dim - 1 - maxLevel - (\n                            self.dim - 2) - maxLevel + 1\n",
+         "new": "                    no_forward_problem = given_coarsening >= self.lmax[0] + self.dim - 1 - maxLevel - (\n                            self.dim - 2) - maxLevel + 1\n"},
+        {"file": "spatiallyAdaptiveExtendSplit.py", "old": "                    no_forward_problem = coarsening_save >= self.lmax[0] + self.dim - 1 - maxLevel - (\n                            self.dim - 2) - maxLevel + 2\n",
+         "new": "                    no_forward_problem = given_coarsening >= self.lmax[0] + self.dim - 1 - maxLevel - (\n                            self.dim - 2) - maxLevel + 2\n"}]),
 ]
